@@ -289,6 +289,8 @@ class ProduceAnalysis(KindAnalysis):
         text_params = set(k for k, v in bargs if v == "TEXT")
         self._ctx_stack = getattr(self, "_ctx_stack", [])
         self._ctx_stack.append(text_params)
+        # private helpers are folded into their user (see KindAnalysis._explore)
+        fn = prog.inline(fn, keep=r"parser::Parser::<'input>::", private_only=True)
         try:
             return self._walk_inner(fn, K0, bargs)
         finally:
@@ -333,15 +335,23 @@ class ProduceAnalysis(KindAnalysis):
                             val = env[sl]
                 elif r[0] == "un" and r[1] == "Not":
                     sl = op_local(r[2])
-                    if sl is not None and sl in env:
+                    if sl is not None and isinstance(env.get(sl), bool):
                         val = not env[sl]
+                elif r[0] == "agg" and l != 0 and isinstance(r[1], list) and r[1][0] == "adt" and re.search(r"(result::Result|option::Option|ops::ControlFlow)$", r[1][1]):
+                    # a variant built on this path in a temporary (the return slot of an inlined
+                    # helper, the value of a `match` expression)
+                    val = "V:" + r[1][2]
                 if val is None:
                     env.pop(l, None)
                 else:
                     env[l] = val
             for s_ in fn.stmts(b):
                 if s_[0] == "=" and s_[1][0] == 0 and not s_[1][1]:
-                    v_ = self._variant_of_rvalue(fn, s_[2])
+                    v_ = None
+                    if s_[2][0] == "use" and op_local(s_[2][1]) is not None and isinstance(env.get(op_local(s_[2][1])), str) and env[op_local(s_[2][1])].startswith("V:"):
+                        v_ = env[op_local(s_[2][1])][2:]
+                    if v_ is None:
+                        v_ = self._variant_of_rvalue(fn, s_[2])
                     if v_ is not None:
                         env[-9] = v_
                     else:
@@ -470,7 +480,7 @@ class ProduceAnalysis(KindAnalysis):
                 continue
             if k == "switch":
                 info = fn.switch_info(b)
-                if info and info.get("kind") == "bool" and info["local"] in env:
+                if info and info.get("kind") == "bool" and info["local"] in env and isinstance(env[info["local"]], bool):
                     work.append((info["edges"][env[info["local"]]], kset, produced, opened, fresh, envt))
                     continue
                 if info and info.get("kind") == "enum" and not info["place"][1] and -(5000 + info["place"][0]) in env:
@@ -547,7 +557,20 @@ def run(prog, rep):
     for N in sorted(kinds_checked):
         req = pa.gram.required_of_kind(N)
         rep.instance("C05.REQUIRED", "%s (opened in %s): requires %s on every error-free path" % (N, ", ".join(sorted(kinds_checked[N])), " ".join(sorted(pa.gram.show(e) for e in req)) or "(nothing)"))
-    for (uid, N, elem), (fn, K0, kset) in sorted(pa.missing.items(), key=lambda kv: (kv[1][0].name, kv[0][1], str(kv[0][2]))):
+    # a node opened in a private helper that was folded into its caller is reported against the
+    # helper (the function whose text opens the node), so that the finding does not move when a
+    # helper is extracted or inlined
+    attributed = {}
+    for (uid, N, elem), (fn, K0, kset) in pa.missing.items():
+        g = prog.inline(fn, keep=r"parser::Parser::<'input>::", private_only=True)
+        org = g.d.get("origin")
+        owner = fn
+        if org:
+            where = set(org[c.block] for c in g.live_calls() if re.search(P + r"start_node$", c.name) and pa._syntax_kind_of(g, c.args[1]) == N)
+            if len(where) == 1 and next(iter(where)) in prog.fns:
+                owner = prog.fns[next(iter(where))]
+        attributed.setdefault((owner.uid, N, elem), (owner, K0, kset))
+    for (uid, N, elem), (fn, K0, kset) in sorted(attributed.items(), key=lambda kv: (kv[1][0].name, kv[0][1], str(kv[0][2]))):
         rep.finding("C05.REQUIRED", fn.name, "%s:missing:%s" % (N, pa.gram.show(elem)),
                     "%s opens a %s node but on some path that reports no error (entered with a `%s` token current%s) the required %s is never produced: text outside the grammar is accepted without a syntax error" % (
                         fn.name.split("grammar::")[-1], N, K0,
